@@ -61,6 +61,7 @@ class Unit(object):
     trusted = []         # trusted / external code
     obligations = {}     # name -> {"props": [...], "text": "..."}
     timeout_ms = 10000
+    bounded = False      # True: obligations hold for a stated finite bound only (never counted as proved)
 
     def splits(self, tier):
         return [None]
@@ -92,9 +93,10 @@ class Ctx(object):
         self.canaries = 0
         self.canaries_refuted = 0
         self.bounded = []
+        self.bounded_mode = bool(getattr(unit, "bounded", False))
 
     def _rec(self, name, status, **kw):
-        r = {"name": name, "status": status, "unit": self.unit.name}
+        r = {"name": name, "status": status, "unit": self.unit.name, "bounded": self.bounded_mode}
         r.update(kw)
         self.records.append(r)
         return r
@@ -227,10 +229,11 @@ def compress_records(records):
     out = []
     for r in records:
         if r["status"] == "discharged":
-            a = agg.get(r["name"])
+            a = agg.get((r["name"], r.get("bounded", False)))
             if a is None:
-                a = agg[r["name"]] = {"name": r["name"], "status": "discharged", "unit": r["unit"],
-                                      "count": 0, "time_s": 0.0, "sample": r.get("sample")}
+                a = agg[(r["name"], r.get("bounded", False))] = {
+                    "name": r["name"], "status": "discharged", "unit": r["unit"], "bounded": r.get("bounded", False),
+                    "count": 0, "time_s": 0.0, "sample": r.get("sample")}
                 out.append(a)
             a["count"] += 1
             a["time_s"] += r.get("time_s", 0.0) or 0.0
